@@ -217,6 +217,10 @@ class FileProxy:
                     pass
                 seam.fired(fault, "close_w", self._rel)
                 raise injected_oserror(fault.get("errno", _errno.EIO), self._rel)
+        try:
+            seam.fdpaths.pop(self._f.fileno(), None)
+        except Exception:
+            pass
         return self._f.close()
 
     def __enter__(self):
@@ -254,7 +258,12 @@ class Seams:
         trace_stats=True,
         clock=True,
         cpu_count=None,
+        exdev_between=None,
     ):
+        # exdev_between = (prefix_a, prefix_b): renames between these two scratch
+        # sub-trees fail with EXDEV ("the temp area is on another file system")
+        self.exdev_between = exdev_between
+        self.exdev_hits = 0
         self.root = os.path.realpath(root)
         self.rootsep = self.root + os.sep
         self.d = decider
@@ -374,6 +383,13 @@ class Seams:
             if r1 is None and r2 is None:
                 return orig(src, dst, *a, **kw)
             seam._gate(kind, f"{r1} -> {r2}")
+            xb = seam.exdev_between
+            if xb is not None and kind == "rename" and r1 is not None and r2 is not None:
+                a1, b1 = str(r1).startswith(xb[0]), str(r1).startswith(xb[1])
+                a2, b2 = str(r2).startswith(xb[0]), str(r2).startswith(xb[1])
+                if (a1 and b2) or (b1 and a2):
+                    seam.exdev_hits += 1
+                    raise OSError(_errno.EXDEV, "Invalid cross-device link [ekosim environment]", str(r1))
             return orig(src, dst, *a, **kw)
 
         wrapper.__name__ = name
@@ -434,6 +450,10 @@ class Seams:
             writing = any(c in mode for c in "wax+")
             seam._gate("open_w" if writing else "open_r", rel, mode)
             f = orig(file, mode, *a, **kw)
+            try:
+                seam.fdpaths[f.fileno()] = rel
+            except Exception:
+                pass
             return FileProxy(seam, f, rel, writing)
 
         return wrapper
